@@ -115,6 +115,9 @@ package fiber
 // (each round consumes the list up to and including the next comma), and every range handed to the
 // handler lies inside the representation: 0 <= Start <= End <= size-1 (SendFile-style callers slice with them).
 //@ func (*DefaultCtx).Range
+//@   props C07 C06
+//@   requires wf-immutable: wfImmutable(c)
+//@   ensures [C06] immutable-stable-type: c.app.config.Immutable ==> stable(result0.Type)
 //@   requires package-errors-initialised: ErrRangeMalformed != nil && ErrRangeUnsatisfiable != nil
 //@   loop 1
 //@     invariant ranges-inside-representation: forall(k, 0, len(rangeData.Ranges), 0 <= rangeData.Ranges[k].Start && rangeData.Ranges[k].Start <= rangeData.Ranges[k].End && rangeData.Ranges[k].End <= size - 1)
@@ -130,12 +133,15 @@ package fiber
 //@ func (*DefaultCtx).Set
 //@   pure
 
-// Append/Vary: the joined value reaches the response only through Set.
+// Append/Vary: the joined value reaches the response only through Set (the fasthttp response is not
+// heap-modelled: like Set they write no location the contracts talk about).
 //@ func (*DefaultCtx).Append
+//@   pure
 //@   loop 1
 //@     decreases len(values) - rangeindex
 
 //@ func (*DefaultCtx).Vary
+//@   pure
 
 // Conditional-request evaluation: total for every If-None-Match / If-Modified-Since / Cache-Control value.
 //@ func (*DefaultCtx).Fresh
